@@ -1,6 +1,7 @@
 package main
 
 import (
+	"fmt"
 	"go/token"
 
 	"golang.org/x/tools/go/ssa"
@@ -165,4 +166,139 @@ func staticCallSites(c *Ctx, f *ssa.Function) []ssa.CallInstruction {
 		return nil
 	}
 	return out
+}
+
+// c09MigrationBeforeRead: an account's dictionary entry may still sit in the raw key-val pool; the pool helpers that
+// receive the account move it into the dictionary. A dictionary read made before such a call tells nothing about
+// the entry afterwards, so its result must not be used on a path that passes the call (the entry would be treated
+// as absent — created again and counted twice — although the migration just brought it in).
+func c09MigrationBeforeRead(c *Ctx) {
+	const rule = "C09.migration-before-read"
+	c.Rule(rule, "in package PVM no result of a lookup in an account's StorageDict/LookupDict that was made before a raw-pool migration helper was called on that account is used on a path through that call (or through an in-place migration of an entry from the pool)", 3)
+	isDict := func(m ssa.Value) (ssa.Value, bool) {
+		m = stripConv(m)
+		if u, ok := m.(*ssa.UnOp); ok && u.Op == token.MUL {
+			if fa, ok := u.X.(*ssa.FieldAddr); ok {
+				if n := fieldName(fa.X.Type(), fa.Field); n == "LookupDict" || n == "StorageDict" {
+					return resolveLocal(stripConv(fa.X)), true
+				}
+			}
+		}
+		if fl, ok := m.(*ssa.Field); ok {
+			if n := fieldName(fl.X.Type(), fl.Field); n == "LookupDict" || n == "StorageDict" {
+				return resolveLocal(stripConv(fl.X)), true
+			}
+		}
+		return nil, false
+	}
+	n := 0
+	for _, f := range c.SrcFuncs("PVM") {
+		var migrations []ssa.Instruction
+		owners := map[ssa.Instruction][]ssa.Value{}
+		allInstrs(f, func(in ssa.Instruction) {
+			if mu, isMU := in.(*ssa.MapUpdate); isMU {
+				// the migration written in place: an entry populated from the raw pool
+				if o, isD := isDict(mu.Map); isD && poolDerived(mu.Value, 0) {
+					migrations = append(migrations, in)
+					owners[in] = []ssa.Value{o}
+				}
+				return
+			}
+			call, ok := in.(*ssa.Call)
+			if !ok {
+				return
+			}
+			h := call.Call.StaticCallee()
+			if !poolHelper(h) || len(h.Blocks) == 0 {
+				return
+			}
+			// the helper writes an account dictionary (directly)
+			writes := false
+			allInstrs(h, func(x ssa.Instruction) {
+				if mu, isMU := x.(*ssa.MapUpdate); isMU {
+					if _, isD := isDict(mu.Map); isD {
+						writes = true
+					}
+				}
+			})
+			if writes {
+				migrations = append(migrations, call)
+				owners[call] = call.Call.Args
+			}
+		})
+		for li, L := range migrations {
+			n++
+			bad := ""
+			allInstrs(f, func(in ssa.Instruction) {
+				lk, ok := in.(*ssa.Lookup)
+				if !ok || bad != "" {
+					return
+				}
+				owner, isD := isDict(lk.X)
+				if !isD {
+					return
+				}
+				// the same account is handed to the helper
+				same := false
+				for _, a := range owners[L] {
+					if sameOwner(a, owner) {
+						same = true
+					}
+				}
+				if !same {
+					return
+				}
+				if _, before := findPath(pathQuery{start: lk, target: func(x ssa.Instruction) bool { return x == L }}); !before {
+					return
+				}
+				if staleUse(lk, L, 0) {
+					bad = fmt.Sprintf("the lookup at %s precedes the migration call and its result is used after it", c.pos(lk.Pos()))
+				}
+			})
+			name := "in-place migration"
+			if call, isCall := L.(*ssa.Call); isCall {
+				name = call.Call.StaticCallee().Name()
+			}
+			c.Check(bad == "", rule, fmt.Sprintf("%s · %s #%d", funcKey(f), name, li), L.Pos(), "no dictionary read from before the migration is used after it", bad)
+		}
+	}
+	c.extra["migration_calls"] = n
+}
+
+// staleUse: some use of v happens on a path that passes L after v was computed.
+func staleUse(v ssa.Value, L ssa.Instruction, d int) bool {
+	if d > 4 || v.Referrers() == nil {
+		return false
+	}
+	reach := func(target ssa.Instruction) bool {
+		_, ok := findPath(pathQuery{start: L, target: func(x ssa.Instruction) bool { return x == target }})
+		return ok
+	}
+	for _, r := range *v.Referrers() {
+		switch x := r.(type) {
+		case *ssa.DebugRef:
+		case *ssa.Extract:
+			if staleUse(x, L, d+1) {
+				return true
+			}
+		case *ssa.Phi:
+			for i, e := range x.Edges {
+				if e != v {
+					continue
+				}
+				pred := x.Block().Preds[i]
+				// the value arrives over this edge: stale when the edge can be taken after L
+				if pred == L.Block() || reach(pred.Instrs[len(pred.Instrs)-1]) {
+					if x.Referrers() != nil && len(*x.Referrers()) > 0 {
+						return true
+					}
+				}
+			}
+		default:
+			if r != L && reach(r) {
+				return true
+			}
+		}
+	}
+	return false
 }
